@@ -126,6 +126,32 @@ func datasetResult(d *hdf5.Dataset) string {
 	} else {
 		parts = append(parts, fmt.Sprintf("cmpd:%d %s", len(v), digest(fmt.Sprintf("%v", v))))
 	}
+	// partial reads and the chunk iterator (several per call: they are what readers of large datasets use)
+	if it, err := d.ChunkIterator(); err != nil {
+		parts = append(parts, "iter:err")
+	} else {
+		n := 0
+		for it.Next() && n < 8 {
+			if v, err := it.Chunk(); err != nil {
+				parts = append(parts, "chunk:err")
+			} else if f, ok := v.([]float64); ok {
+				parts = append(parts, "chunk:"+floatsDigest(f))
+			}
+			n++
+		}
+		if dims := it.DatasetDims(); len(dims) > 0 && len(dims) <= 4 {
+			start, count := make([]uint64, len(dims)), make([]uint64, len(dims))
+			for i, x := range dims {
+				count[i] = (x + 1) / 2
+				start[i] = x - count[i]
+			}
+			if v, err := d.ReadSlice(start, count); err != nil {
+				parts = append(parts, "slice:err")
+			} else if f, ok := v.([]float64); ok {
+				parts = append(parts, "slice:"+floatsDigest(f))
+			}
+		}
+	}
 	return clip(parts[1], 70) + " " + digest(parts...)
 }
 
